@@ -73,6 +73,14 @@ EXPLORED, not proved (ctx.explored['history_differential'], oracle = the impleme
   by the immediate repeat, and compared DEEPLY before / after every decode / decode_ftp / generate / run* call (container
   type and length, identity of the elements, array contents / shape / dtype / writeable flag; repr() and label of the code,
   decoder and error-model objects): note 'ARG', key mutation:<decoder>:<op>.
+  USER DECODERS THAT KEEP THEIR ANSWERS (class 'memo', `gen_memo_history`; c06_exec.subclass variants '~memo' / '~memo_s' /
+  '~memo_lc' of Naive / planar + toric MWPM / planar MPS / rotated planar SMWPM / colour MPS): one DecodeResult per (code,
+  syndrome, model, probability) — recovery only; recovery + success; recovery + logical_commutations — built once and handed
+  out again whenever the key recurs.  6–10 simulations in a row on ONE such decoder object (seeded runs over 2 seeds x 3
+  probabilities x 2 models x 1–2 codes, run_once, plain decodes), each compared with the same call on a fresh decoder; no
+  caller modification there.  Monitor (note 'RESULT-OBJ', key mutation:<decoder>:<op>): after every call each DecodeResult
+  the decoder keeps is compared deeply (attribute set, identity and state of every field) with what the decoder built.  The
+  stream part checks the same for its recording decoder (`HashDec.touched`: success / None-ness of every field too).
 Excluded / pinned (random or stateful by documented design): MPS/RMPS skip-truncate masks (stp is never set: the mask
   comes from an unseeded default_rng()), PlanarYDecoder's random.choice between exactly tied cosets (random.seed pinned
   before every call in both processes; for provably untied inputs it is NOT pinned: see repeats), FileErrorModel (cursor)
@@ -104,7 +112,8 @@ RULE = ('memo: random call histories (<=40 calls, 15 keys, cap in {None,0,1,2,3,
         'syndromes for all TN decoders / modes; user subclasses interleaved with base classes; decoder parameters and '
         'probabilities at the ends of their domains; identical Y-decodes of provably untied cosets repeated 8-16 times '
         'under different `random` states; object lifetimes: kept v. temporary code / decoder / error-model objects along '
-        'parameter sweeps with address re-use; deep before/after comparison of every argument container): see '
+        'parameter sweeps with address re-use; deep before/after comparison of every argument container; user decoders '
+        'that memoise and re-return their DecodeResult objects over several simulations, objects compared deeply): see '
         'coverage.explored')
 
 HERE = os.path.dirname(os.path.abspath(__file__))
@@ -285,9 +294,17 @@ def make_env():
                 if b[0] == 'bare':
                     pairs = [(out, b[1])]
                 else:
-                    pairs = [(out.logical_commutations, b[2]), (out.recovery, b[3]), (out.custom_values, b[4])]
+                    # the DecodeResult is the decoder's object: every field still is what the decoder put there (a field
+                    # it left None stays None: app resolves the unspecified outcomes for ITS run, not into the object)
+                    pairs = [(out.success, b[1]), (out.logical_commutations, b[2]), (out.recovery, b[3]),
+                             (out.custom_values, b[4])]
+                    if sorted(vars(out)) != ['custom_values', 'logical_commutations', 'recovery', 'success']:
+                        bad.append(synkey)
                 for got, want in pairs:
-                    if want is not None and not np.array_equal(got, np.array(want, dtype=int)):
+                    if want is None or isinstance(want, bool):
+                        if got is not want:
+                            bad.append(synkey)
+                    elif not np.array_equal(got, np.array(want, dtype=int)):
                         bad.append(synkey)
             return bad
 
@@ -426,8 +443,9 @@ def stream_monitors(rc, env, r0=None):
     r0 = r0 or real_run(rc, env)
     t = r0['dec'].touched()
     if t:
-        return {'what': 'the run modified in place an array returned by the decoder (the decoder hands out the same '
-                        'object for the same syndrome, so its later answers change)', 'syndromes': t[:3]}
+        return {'what': 'the run modified an object returned by the decoder (an array in place, or a field of its '
+                        'DecodeResult; the decoder hands out the same object for the same syndrome, so its later answers '
+                        'change)', 'syndromes': t[:3]}
     if any(not np.array_equal(a, b) for a, b in zip(r0['em'].returned, r0['em'].errors)):
         return {'what': 'the run modified in place an error array returned by the error model'}
     canon = lambda r: (r['status'], None if r['res'] is None else X.canon_dict(r['res']),  # noqa: E731
@@ -1170,6 +1188,54 @@ def gen_lifetime_history(rng, length):
     return h
 
 
+# ---- USER DECODERS THAT KEEP THEIR ANSWERS (class 'memo'): decoding is a function of (code, syndrome, model, probability), so a
+# user decoder may build one DecodeResult per key and hand the very same object out again (c06_exec.subclass variants
+# '~memo' recovery only, '~memo_s' recovery + success, '~memo_lc' recovery + logical_commutations).  The decoder OBJECT then
+# carries the history of all earlier simulations; a seeded run on it must still give the data of a fresh decoder object.
+
+MEMO_STATIONS = [
+    ([['FiveQubitCode', []]], ['NaiveDecoder', {}]), ([['SteaneCode', []]], ['NaiveDecoder', {}]),
+    ([['FiveQubitCode', []], ['PlanarCode', [2, 2]]], ['NaiveDecoder', {}]),
+    ([['PlanarCode', [3, 3]], ['PlanarCode', [2, 4]]], ['PlanarMWPMDecoder', {}]),
+    ([['ToricCode', [2, 2]], ['ToricCode', [3, 3]]], ['ToricMWPMDecoder', {}]),
+    ([['PlanarCode', [3, 3]]], ['PlanarMPSDecoder', {'chi': 4}]),
+    ([['RotatedPlanarCode', [3, 3]]], ['RotatedPlanarSMWPMDecoder', {}]),
+    ([['Color666Code', [3]]], ['Color666MPSDecoder', {}]),
+]
+
+
+def gen_memo_history(rng, length, k):
+    """simulations, one after the other, on ONE memoising user decoder object: seeded runs over a few seeds x error
+    probabilities x error models (so that the same seeded run recurs after other simulations, and syndromes recur with
+    errors of different logical cosets), run_once and plain decodes in between.  No caller modification of the results:
+    what such a decoder hands back stays the decoder's."""
+    codes, (dname, dargs) = MEMO_STATIONS[k % len(MEMO_STATIONS)]
+    variant = X.MEMO_VARIANTS[(k // len(MEMO_STATIONS) + k % len(MEMO_STATIONS)) % len(X.MEMO_VARIANTS)]
+    dec = ['{}~{}'.format(dname, variant), dargs]
+    ems = smwpm_ems(rng)[:2] if 'SMWPM' in dname else rng.sample(
+        [['DepolarizingErrorModel', []], ['BitFlipErrorModel', []], ['BitPhaseFlipErrorModel', []],
+         ['BiasedDepolarizingErrorModel', [10, 'Z']]], 2)
+    ps = rng.sample([0.05, 0.1, 0.2, 0.3, 0.4], 3)
+    seeds = [rand_seed(rng) for _ in range(2)]
+    light = dname in ('NaiveDecoder', 'PlanarMWPMDecoder', 'ToricMWPMDecoder')
+    specs, focus = [], {}
+    for j in range(length):
+        code, em, p = rng.choice(codes), rng.choice(ems), rng.choice(ps)
+        op = 'run' if j < 2 else rng.choice(['run', 'run', 'run', 'run_once', 'decode'])
+        spec = {'op': op, 'code': code, 'dec': dec, 'em': em, 'p': p, 'class': 'memo'}
+        if op == 'decode':
+            fk = json.dumps(code)
+            focus.setdefault(fk, (rng.randrange(10 ** 6), rng.randrange(10 ** 6), rng.choice('XYZ')))
+            spec.update(gen_syndrome(rng, code, em, op, focus[fk], p=p))
+        else:
+            spec['seed'] = rng.choice(seeds)
+            if op == 'run':
+                spec['max_runs'] = rng.choice([30, 60, 100] if light else [15, 30])
+                spec['max_failures'] = rng.choice([None, None, None, 5])
+        specs.append(spec)
+    return specs
+
+
 def spawn(job, hashseed):
     env = dict(os.environ)
     env['PYTHONHASHSEED'] = str(hashseed)
@@ -1406,6 +1472,8 @@ def part_history(ctx):
     # object LIFETIMES (temporaries v. kept-alive argument objects): parameter sweeps and general histories
     histories += [gen_sweep_history(rng, rng.choice([16, 20, 24]), k) for k in range(ctx.scale(21, 105))]
     histories += [gen_lifetime_history(rng, rng.choice([8, 12, 16])) for _ in range(ctx.scale(6, 50))]
+    # USER DECODERS that memoise and re-return their DecodeResult objects, used for several simulations in a row
+    histories += [gen_memo_history(rng, rng.choice([6, 8, 10]), k) for k in range(ctx.scale(12, 96))]
     n_hist = len(histories)
     flat = [(h, i) for h in range(n_hist) for i in range(len(histories[h]))]
     n_workers = ctx.scale(3, 5)
@@ -1527,7 +1595,9 @@ def part_history(ctx):
                 'parameters / probabilities at the ends of their domains) and y-repeat (identical untied Y-decodes under '
                 'different `random` states), sweep / lifetime (argument objects kept v. temporaries whose address is '
                 're-used by later objects); argument containers (lists of per-step arrays) compared deeply around every '
-                'call'.format(hs),
+                'call; class memo: user decoders that keep and re-return one DecodeResult per syndrome (recovery only / + '
+                'success / + logical_commutations) over several simulations, the kept objects compared deeply with what '
+                'the decoder built after every call'.format(hs),
         'wall_s': round(time.time() - t0, 1)}
     ctx.evaluations += compared
 
